@@ -23,6 +23,9 @@ import (
 )
 
 func DeleteGroup(id []byte) error {
+	if err := verifDeleteGroupFault(); err != nil {
+		return err
+	}
 	psmt, err := mysqlDBLog.Prepare("DELETE FROM groupIndex WHERE hash = ?")
 	if err != nil {
 		logger.Error(err)
